@@ -42,14 +42,14 @@ def _sa_cfg(path, seeds, calls, maxcalls, maxruns):
 
 def _sl_cfg(path, impl):
     with open(path, "w") as f:
-        f.write("SPECIFICATION Spec\nCONSTANTS\n  ZMag = {1, 3}\n  ExpMax = 2\n  Impl = \"%s\"\nINVARIANTS LawHolds PickHolds\n"
+        f.write("SPECIFICATION Spec\nCONSTANTS\n  ZMag = {1, 3}\n  ExpMax = 2\n  Impl = \"%s\"\nINVARIANTS LawHolds PickHolds RestrictHolds\n"
                 "CHECK_DEADLOCK FALSE\n" % impl)
 
 
 def _hs_cfg(path, impl, quick=True):
     with open(path, "w") as f:
-        f.write("SPECIFICATION Spec\nCONSTANTS\n  Objs = {%s}\n  Cfgs = {1, 2%s}\n  Seeds = {1, 2}\n  Lens = {1, 2}\n  Impl = \"%s\"\n"
-                "INVARIANTS UsesCurrent PrefixOK\nCHECK_DEADLOCK FALSE\n" % ("1" if quick else "1, 2", "" if quick else ", 3", impl))
+        f.write("SPECIFICATION Spec\nCONSTANTS\n  Objs = {%s}\n  Cfgs = {1, 2%s}\n  Seeds = {1}\n  Lens = {1, 2}\n  Impl = \"%s\"\n"
+                "INVARIANTS UsesCurrent PrefixOK\nCHECK_DEADLOCK FALSE\n" % ("1, 2", "" if quick else ", 3", impl))
 
 
 def _sig(rj):
@@ -171,6 +171,24 @@ def _selftest_cases():
     bad = cp(hs)
     bad[4]["wpos"] = [True, False, True]            # a zero-probability transition taken
     cases.append(("hmm-zero-transition", "HmmSampleTrace", bad, False))
+    rs = [{"e": "Reset"}, {"e": "Restricted", "s": "dd.exp", "inDom": [False, False, True, False, True], "idx": 3, "dom": True, "seed": 1}]
+    cases.append(("restricted-good", "ScaleLawTrace", rs, True))
+    bad = cp(rs)
+    bad[1]["idx"] = 0                               # in the interval, but not an element of the stream of the declared law
+    cases.append(("restricted-retry-other-law", "ScaleLawTrace", bad, False))
+    bad = cp(rs)
+    bad[1]["idx"] = 1
+    bad[1]["dom"] = False                           # the first raw draw returned although it is outside the interval
+    cases.append(("restricted-not-in-domain", "ScaleLawTrace", bad, False))
+    cpy = [{"e": "Reset"}, {"e": "New", "o": 0, "k": "auto", "ns": 2}, {"e": "New", "o": 1, "k": "auto", "ns": 2},
+           {"e": "Sample", "o": 1, "n": 2, "seed": 7, "out": [0, 1], "lo": [0, 1], "hi": [0, 1], "wpos": [True, True]},
+           {"e": "Mut", "o": 0, "what": "param", "r": "ok", "twin": "ok"},
+           {"e": "CopyTo", "o": 0, "o2": 1, "how": "assign"},
+           {"e": "Sample", "o": 1, "n": 2, "seed": 7, "out": [1, 1], "lo": [1, 1], "hi": [1, 1], "wpos": [True, True]}]
+    cases.append(("hmm-assign-good", "HmmSampleTrace", cpy, True))
+    bad = cp(cpy)
+    del bad[5]                                      # without the assignment the two samples are in one epoch: not prefixes
+    cases.append(("hmm-assign-dropped", "HmmSampleTrace", bad, False))
     bad = cp(law)
     bad[1]["code"] = 2                              # doubling the mean halves the draw: read as a rate
     cases.append(("law-mean-read-as-rate", "ScaleLawTrace", bad, False))
@@ -210,15 +228,15 @@ def run(tier, seed):
     _sl_cfg(cfg, "decl")
     jobs.append(("model", "ScaleLaw/declared", "ZMag={1,3} ExpMax=2 Impl=decl (9 samplers, every argument, factors 1/4..4, shifts, inverse-cdf picks)",
                  (lambda cfg=cfg: vc.model_check(SPEC, "ScaleLaw", cfg, workers=3, coverage=True, timeout=1800, heap="4g"))))
-    for impl in ("expAsRate", "gaussSd", "gammaScale"):
+    for impl in ("expAsRate", "gaussSd", "gammaScale", "retryOtherLaw"):
         cfg = os.path.join(wd, "sl-%s.cfg" % impl)
         _sl_cfg(cfg, impl)
         jobs.append(("control2", impl, "", (lambda cfg=cfg: vc.tlc(SPEC, "ScaleLaw", cfg, workers=1, timeout=900, extra=("-noGenerateSpecTE",)))))
     cfg = os.path.join(wd, "hs-refresh.cfg")
     _hs_cfg(cfg, "refresh", quick)
-    jobs.append(("model", "HmmSample/refresh", "Objs={%s} Cfgs=1..%d Seeds={1,2} Lens={1,2} kinds full/auto, Impl=refresh" % ("1" if quick else "1,2", 2 if quick else 3),
+    jobs.append(("model", "HmmSample/refresh", "Objs={1,2} Cfgs=1..%d Seeds={1} Lens={1,2} kinds full/auto, copy/assign, Impl=refresh" % (2 if quick else 3),
                  (lambda cfg=cfg: vc.model_check(SPEC, "HmmSample", cfg, workers=3, coverage=True, timeout=1800, heap="4g"))))
-    for impl in ("lazyFirst", "autoEqStale"):
+    for impl in ("lazyFirst", "autoEqStale", "assignKeepsFlag"):
         cfg = os.path.join(wd, "hs-%s.cfg" % impl)
         _hs_cfg(cfg, impl)
         jobs.append(("control3", impl, "", (lambda cfg=cfg: vc.tlc(SPEC, "HmmSample", cfg, workers=1, timeout=900, extra=("-noGenerateSpecTE",)))))
@@ -244,7 +262,7 @@ def run(tier, seed):
                 raise vc.MachineryError("negative control: HmmSample with Impl=%s should violate UsesCurrent, got %s\n%s" % (name, r.invariant, r.out[-2000:]))
             ck.extra["negative_control_hmm_" + name] = "HmmSample with Impl=%s: TLC reports UsesCurrent violated, as expected" % name
         elif kind == "control2":
-            if r.invariant != "LawHolds":
+            if r.invariant != ("RestrictHolds" if name == "retryOtherLaw" else "LawHolds"):
                 raise vc.MachineryError("negative control: ScaleLaw with Impl=%s should violate LawHolds, got %s\n%s" % (name, r.invariant, r.out[-2000:]))
             ck.extra["negative_control_" + name] = "ScaleLaw with the implementation reading '%s' of the arguments: TLC reports LawHolds violated, as expected" % name
         else:
@@ -282,7 +300,9 @@ def run(tier, seed):
                "random runs of all call kinds re-played under the same seed; argument conventions: pairs of draws under one seed "
                "differing in one argument (factors 1/4, 1/2, 2, 4, shifts) for 4 RandomTools samplers and 5 distribution classes x 16 seeds, "
                "inverse-cdf picks with the rank of the uniform, randC domain + quantile round trip; hidden-state paths: random histories "
-               "(mutations, getters, sample(1..5) under 3 seeds per history) on Full/AutoCorrelation matrices with 1..4 states; non-trivial = scenario with at least one draw"
+               "(mutations, getters, copy construction / assignment between two objects, sample(1..5) under 3 seeds per history) on "
+               "Full/AutoCorrelation matrices with 1..4 states; restricted distributions (6 classes): accepted draw = first in-domain "
+               "element of the unrestricted twin's stream under the same seed; non-trivial = scenario with at least one draw"
                % (("6 x 16 seeds", 3) if quick else ("10 x 16 seeds, 11..12 x 4 seeds", 4)))
     ck.distinct = ck.traces
     ck.assumptions = ["TLC 1.8.0; CommunityModules Json",
